@@ -156,6 +156,38 @@ def run(ctx):
                 ctx.violation("oracle", det, site="fwer_minp")
         order = [int(i) for i in np.argsort(pf)]
         ops.append(f"fwer|{int(plus1)}|{name}|{rats(pv)}|{ints(order)}|{rows(D)}"); meta.append((det, out))
+    # very long permutation distributions (B on and past 2^16): exact integer oracle, vectorised
+    for B in ([65536, 65537, 70000] if ctx.thorough() else [ctx.rng.choice([65537, 70000])]):
+        j_ = ctx.rng.randint(2, 3); plus1 = ctx.rng.random() < 0.5; c_ = 1 if plus1 else 0
+        rs = np.random.RandomState(ctx.rng.randint(0, 10**6))
+        Dbig = rs.randint(0, 10, size=(B, j_))
+        ks = sorted(ctx.rng.sample(range(1, B + c_), j_)); ctx.rng.shuffle(ks)
+        pvb = np.array([k / (B + c_) for k in ks])
+        for comb_ in ("fisher", "tippett"):
+            r = guarded(npc.fwer_minp, pvb, Dbig.astype(float), comb_, plus1, secs=120)
+            ctx.case(("bigB", B, comb_, plus1, tuple(ks)), True); ctx.count("very-long-distr")
+            if r[0] != "ok":
+                ctx.violation("oracle", {"call": "fwer_minp", "B": B, "combine": comb_, "issue": "call failed", "returned": str(r[1:])[:200]}, site="fwer_minp"); continue
+            cnt_ge = [np.array([(Dbig[:, jj] >= v).sum() for v in range(10)], dtype=np.int64) + 2 * c_ for jj in range(j_)]
+            A = np.stack([cnt_ge[jj][Dbig[:, jj]] for jj in range(j_)], axis=1)          # numerators of the row p-values
+            order = [int(i) for i in np.argsort(pvb)]
+            los, his = [], []
+            for jj in range(j_ - 1):
+                cols = order[jj:]
+                if comb_ == "fisher":
+                    rowv = np.prod(A[:, cols], axis=1); obsv = int(np.prod([ks[i] for i in cols]))
+                else:
+                    rowv = np.min(A[:, cols], axis=1); obsv = min(ks[i] for i in cols)
+                strict, loose = int((rowv < obsv).sum()), int((rowv <= obsv).sum())
+                los.append((strict + c_) / (B + c_)); his.append((loose + c_) / (B + c_))
+            los.append(float(pvb[order[-1]])); his.append(float(pvb[order[-1]]))
+            los = np.maximum.accumulate(los); his = np.maximum.accumulate(his)
+            out = [float(v) for v in r[1]]
+            if comb_ == "tippett":
+                los = his          # no rounding ambiguity for minima of integers
+            if any(not (los[k] - 1e-12 <= out[order[k]] <= his[k] + 1e-12) for k in range(j_)):
+                ctx.violation("oracle", {"call": "fwer_minp", "B": B, "combine": comb_, "plus1": plus1, "pvalue_numerators": ks, "distr": f"RandomState({rs.get_state()[1][0]}).randint(0, 10, ({B}, {j_})) [first seed word shown]",
+                                         "issue": "very long distr: adjusted p-values outside the exact bracket", "returned": out, "bracket_sorted": [np.asarray(los).tolist(), np.asarray(his).tolist()], "order": order}, site="fwer_minp")
     # buffers refilled in place with new contents between two calls: second result as on fresh arrays
     for _ in range(ctx.n(40, 400)):
         B = ctx.rng.randint(3, 12); j_ = ctx.rng.randint(2, 4); comb_ = ctx.rng.choice(["fisher", "tippett", "liptak"]); p1_ = ctx.rng.random() < 0.5
